@@ -29,7 +29,7 @@ EXPLANATION = (
     "releases it). Paths are explored with facts for the repo's correlated guards (same flag, `v is not None`, isinstance on the "
     "argument); a release under a constant-false flag is no release. A2: between a non-activating get_inactive_register() and its "
     "protecting use no call that can reach an allocation. A3: the pool enumerates 2**REG_INDEX_BITS registers of bank R."
-    ' C14.X (abstract execution, nqsa/sdkprog.py): 21 operation kinds x 40 completions (20 for entanglement) through the repository\'s connection, builder and controller.'
+    ' C14.X (abstract execution, nqsa/sdkprog.py): 23 operation kinds x 24 completions (17 for entanglement; 120 / 20 in the thorough tier) through the repository\'s connection, builder and controller.'
     ' C14.A4: no use of a register after its release. C14.Z: no truthiness test on an int-typed value in the memory manager and futures.'
     ' C14.P: MemoryManager.reset() reaches every reset_* method and each restores its pool field to the state __init__ gives it. C14.K: nothing remembered across calls depends on an argument that is not part of its key.'
     ' C14.A3 executes get_inactive_register abstractly for six active sets x activate on / off (first inactive of R0..R15, exhaustion raises, the active set changes exactly when asked).'
@@ -37,7 +37,7 @@ EXPLANATION = (
 LEVEL_TEXT = (
     "Static analysis with abstract execution: C14.X completes each operation kind (conditions in every form, counted loops, loop_until, foreach, "
     "enumerate, add with and without modulus on both kinds of future, measurement, nested combinations, entanglement requests with and without post "
-    "routines) 40 times on one connection with periodic flushes - the repository's builder keeps compiling, its controller executes every subroutine, "
+    "routines) 24 times (120 in the thorough tier) on one connection with periodic flushes - the repository's builder keeps compiling, its controller executes every subroutine, "
     "the final arrays equal direct execution (second clause: a clobbered live register shows there). The ownership analysis proves every acquire site "
     "outside the six units the runs exercise released or transferred on all normal paths. Bound: lengths up to 120, nesting depth two in the runs."
 )
@@ -278,7 +278,7 @@ def check_long_runs(ctx, rule="C14.X", rounds=40):
 
 def run(ctx):
     repo, ev = ctx.repo, ctx.ev
-    check_long_runs(ctx, rounds=18 if os.environ.get("NQSA_SELFTEST") else 40 if ctx.tier != "thorough" else 120)
+    check_long_runs(ctx, rounds=18 if os.environ.get("NQSA_SELFTEST") else 24 if ctx.tier != "thorough" else 120)
     check_pools_reset(ctx)
     units, by_name = collect_units(repo)
     an = O.Analyzer(units, by_name)
